@@ -10,15 +10,13 @@ func read(rd io.Reader) (byte, error) {
 
 	i, err := rd.Read(b)
 
-	if err != nil {
-		return 0, err
+	// a byte that has been delivered counts, even if the same call reports an error
+	// (the error shows up again on the next call)
+	if i == 1 {
+		return b[0], nil
 	}
 
-	if i != 1 {
-		return 0, err
-	}
-
-	return b[0], nil
+	return 0, err
 }
 
 func convert(b []byte) (out []byte, err error) {
